@@ -230,7 +230,7 @@ pub(crate) fn plain_streams_part(rep: &mut crate::verdict::Report, prop: &str, w
         name: "lib: the written spectrum on plain streams and through the file route".into(),
         evaluations: n,
         nontrivial: n,
-        note: format!("{what}: text and npy through writers accepting 1 / 7 / 64 bytes per call (only write and flush implemented), into a writer that is full part-way (not a success), onto a fresh path and onto a path holding a longer file by write_to_path and write_to_path_or_stdout (the file holds exactly what a Vec receives), the npy bytes read back through buffered readers of capacity 1..129"),
+        note: format!("{what}: text and npy with the builder's setters in either order and called again, through writers accepting 1 / 7 / 64 bytes per call (only write and flush implemented), into a writer that is full part-way (not a success), onto a fresh path and onto a path holding a longer file by write_to_path and write_to_path_or_stdout (the file holds exactly what a Vec receives), the npy bytes read back through buffered readers of capacity 1..129"),
         exhaustive: true,
         extra: vec![],
     });
